@@ -80,8 +80,16 @@ def check(case):
     except CutError:
         return out
     wn, spec, tau, _ = res
-    spec = np.asarray(spec, dtype=float)
-    tau = np.asarray(tau, dtype=float)
+    spec = np.array(spec, dtype=float, copy=True)
+    tau = np.array(tau, dtype=float, copy=True)
+    out.applies('repeatable')
+    try:
+        with np.errstate(all='ignore'):
+            again = cut(out, 'model', m.model)
+        if not np.array_equal(np.asarray(again[1]), spec, equal_nan=True):
+            out.fail('repeatable', 'second model() call differs (max rel %.2e)' % maxrel(again[1], spec))
+    except CutError:
+        return out
     T = np.asarray(m.temperatureProfile, dtype=float)
     nl = len(T)
     iso = bool(np.all(T == T[0]))
